@@ -139,7 +139,10 @@ func (e naiveEngine) oneStepEvalClause(clause ast.Clause) []ast.Atom {
 
 	var facts []ast.Atom
 	for _, sol := range solutions {
-		facts = append(facts, clause.Head.ApplySubst(sol).(ast.Atom))
+		// Evaluate function expressions in the head, as the semi-naive engine does.
+		if head, err := functional.EvalAtom(clause.Head, sol); err == nil {
+			facts = append(facts, head)
+		}
 	}
 	return facts
 }
